@@ -142,8 +142,13 @@ class ProviderDispatcher(BaseProvider):
             if 'EmbeddedInstance' in prop_cls.qualifiers:
                 ei_qual = prop_cls.qualifiers['EmbeddedInstance']
                 emb_classname_cls = ei_qual.value
-                if not self.is_subclass(
-                        emb_classname_inst, emb_classname_cls, class_store):
+                try:
+                    emb_is_subclass = self.is_subclass(
+                        emb_classname_inst, emb_classname_cls, class_store)
+                except KeyError:
+                    # The class of the embedded instance does not exist
+                    emb_is_subclass = False
+                if not emb_is_subclass:
                     raise CIMError(
                         CIM_ERR_INVALID_PARAMETER,
                         _format("Property {0!A} in the instance is an embedded "
